@@ -168,6 +168,11 @@ def holder(spec_or_obj, shape, device=None):
     return td
 
 
+def spell(rng, d, n):
+    """the dim `d` of `n` possible ones, spelled negatively 30 % of the time (the model / numpy side always gets `d`)"""
+    return d - n if n and rng.random() < 0.3 else d
+
+
 def pick_device(rng):
     return rng.choice([None, "cpu"])
 
